@@ -119,7 +119,7 @@ def parse_output(text, res):
 
 
 SLOT_DIR = "/tmp/verif_tlc_slots"
-NSLOTS = int(os.environ.get("VERIF_TLC_SLOTS", "20"))
+NSLOTS = int(os.environ.get("VERIF_TLC_SLOTS", "16"))
 
 
 class _Slots:
@@ -169,7 +169,14 @@ def run(module, cfg, workdir, *, workers=16, env=None, simulate=None, depth=None
     modpath = module if os.path.isabs(module) else os.path.join(SPECS, module if module.endswith(".tla") else module + ".tla")
     cfgpath = cfg if os.path.isabs(cfg) else os.path.join(SPECS, cfg)
     libpath = os.pathsep.join([SPECS] + list(libs))
-    jopts = ["-XX:+UseParallelGC", "-Xmx" + heap, "-DTLA-Library=" + libpath]
+    # cap the JVM's helper threads: many 1-worker JVMs run side by side (slot throttle) and the
+    # default of one GC thread per core oversubscribes the machine
+    try:
+        gct = 2 if int(workers) <= 1 else min(int(workers), 8)
+    except (TypeError, ValueError):
+        gct = 8
+    jopts = ["-XX:+UseParallelGC", "-XX:ParallelGCThreads=%d" % gct, "-XX:CICompilerCount=2",
+             "-Xmx" + heap, "-DTLA-Library=" + libpath]
     if dfs:
         jopts.append("-Dtlc2.tool.queue.IStateQueue=StateDeque")
     cmd = ["java"] + jopts + ["-cp", JAR + ":" + DEPS, "tlc2.TLC", "-workers", str(workers),
